@@ -138,6 +138,11 @@ pub fn load(text: &str, code_base: u64) -> Result<Prog, LoadErr> {
             }
             continue;
         }
+        // a line with unbalanced brackets is not acceptable to any assembler (e.g. a symbol that was
+        // broken across two lines)
+        if t.matches('[').count() != t.matches(']').count() || t.matches('(').count() != t.matches(')').count() {
+            return Err(LoadErr::Text(Viol::new(Class::Text, format!("line {line}: `{t}` has unbalanced brackets"))));
+        }
         let toks: Vec<&str> = t.split_whitespace().collect();
         let bad = |what: &str| LoadErr::Harness(format!("line {line}: {what}: `{t}`"));
         let noenc = |what: String| LoadErr::Text(Viol::new(Class::Text, format!("line {line}: `{t}`: {what}")));
@@ -311,6 +316,9 @@ pub fn load(text: &str, code_base: u64) -> Result<Prog, LoadErr> {
                 }
                 fixups.push((ins.len(), toks[1].to_string(), line));
                 Ins::Jal(0, usize::MAX)
+            }
+            m if !m.chars().all(|c| c.is_ascii_alphanumeric() || c == '.' || c == '_') => {
+                return Err(LoadErr::Text(Viol::new(Class::Text, format!("line {line}: `{t}` is neither an instruction nor a label nor a directive"))));
             }
             _ => return Err(bad("unknown mnemonic")),
         };
